@@ -71,6 +71,34 @@ structure Cfg where
   overrideCharge : Bool  -- `override_precursor_charge`: the annotated charge is ignored
   prefilter : Bool       -- `database.prefilter`: chunked pre-filter build of the database
   prefilterChunk : Nat
+  -- `quant.lfq` / `quant.lfq_settings` (defaults of `LfqSettings::default()` when absent from the request)
+  lfq : Bool := false
+  lfqPeakScoring : Nat := 3     -- 0 RetentionTime, 1 SpectralAngle, 2 Intensity, 3 Hybrid
+  lfqIntegration : Nat := 1     -- 0 Apex, 1 Sum
+  lfqSpectralAngle : Rat := 7 / 10
+  lfqPpm : Rat := 5
+  lfqCombine : Bool := true
+  -- `quant.tmt_settings`
+  tmtLevel : Nat := 2
+  tmtSn : Bool := false
+
+/-- a spectrum that is not searched (mzML files only): an MS1 scan (LFQ signal) or the MS3 reporter scan of an MS2
+    spectrum (`ref` = that spectrum's id) -/
+structure Extra where
+  level : Nat
+  title : List UInt8
+  rt : Nat                      -- f32 bits, seconds
+  ref : Option (List UInt8 × Nat)
+  inj : Nat                     -- f32 bits
+  noise : Option Nat            -- a noise array holding this value (f32 bits) for every peak
+  peaks : List (Nat × Nat)
+
+/-- how one spectrum file was written -/
+structure FileFmt where
+  format : Nat := 0             -- 0 MGF, 1 mzML, 2 mzML.gz
+  style : Nat := 0              -- bit 0: 64-bit m/z, bit 1: 64-bit intensity, bit 2: zlib, bit 3: time in minutes
+  inj : List Nat := []          -- ion injection time (f32 bits) of the MS2 spectra
+  extras : List Extra := []
 
 structure Spectrum where
   title : List UInt8
@@ -89,6 +117,11 @@ structure Run where
   fasta : List (List UInt8 × List UInt8)     -- accession, sequence
   files : List (List Spectrum)
   planted : List Planted
+  fmts : List FileFmt := []                  -- one per file; missing = MGF
+  lfqPlanted : List (Nat × List UInt8 × Bool) := [] -- (file, peptide, exact): clean MS1 envelope of a planted peptide;
+                                             -- exact = the envelope is exactly the theoretical isotope distribution
+
+def Run.fmt (run : Run) (i : Nat) : FileFmt := run.fmts.getD i {}
 
 /-! ## rows -/
 
@@ -393,17 +426,29 @@ def startsWith (s pre : List UInt8) : Bool := s.take pre.length == pre
 
 def natToBytes (n : Nat) : List UInt8 := bytesOfStr (toString n)
 
-/-- the harness names the spectrum files `file<i>.mgf` -/
-def fileIndex (name : List UInt8) : Option Nat :=
+def fileIndexWith (suf : List UInt8) (name : List UInt8) : Option Nat :=
   let pre := bytesOfStr "file"
-  let suf := bytesOfStr ".mgf"
   if startsWith name pre && name.length > pre.length + suf.length && name.drop (name.length - suf.length) == suf then
     let mid := (name.drop pre.length).take (name.length - pre.length - suf.length)
-    (strOfBytes mid).toNat?
+    if mid.all isDigit then (strOfBytes mid).toNat? else none
   else none
 
+/-- the harness names the spectrum files `file<i>.mgf` / `file<i>.mzML` / `file<i>.mzML.gz` -/
+def fileIndex (name : List UInt8) : Option Nat :=
+  ((fileIndexWith (bytesOfStr ".mgf") name).orElse fun _ => fileIndexWith (bytesOfStr ".mzML.gz") name).orElse
+    fun _ => fileIndexWith (bytesOfStr ".mzML") name
+
+/-- the name the `filename` columns must show for input file `i` (the file name of the configured path) -/
+def fileNameOf (run : Run) (i : Nat) : List UInt8 :=
+  bytesOfStr "file" ++ natToBytes i ++
+    bytesOfStr (match (run.fmt i).format with | 0 => ".mgf" | 1 => ".mzML" | _ => ".mzML.gz")
+
+/-- index of the input file a `filename` cell names (the cell must be exactly that file's name) -/
+def fileOf (run : Run) (name : List UInt8) : Option Nat :=
+  (fileIndex name).bind fun fi => if fi < run.files.length && fileNameOf run fi == name then some fi else none
+
 def findSpectrum (run : Run) (r : Row) : Option Spectrum := do
-  let fi ← fileIndex r.filename
+  let fi ← fileOf run r.filename
   let f ← run.files[fi]?
   f.find? (fun s => s.title == r.scannr)
 
@@ -599,6 +644,7 @@ def fragViolation (run : Run) (rows : List Row) (frags : List FragRow) : Option 
 structure TmtRow where
   filename : List UInt8
   scannr : List UInt8
+  inj : Nat := 0         -- `ion_injection_time`, f32 bits
   values : List Nat      -- f32 bits
 
 /-- reporter m/z of the configured plex (tables regenerated from tmt.rs; pinned by Props/Consts) -/
@@ -621,36 +667,161 @@ def reporterValue (sp : Spectrum) (label : Rat) : Option Rat :=
   some ((sp.peaks.filter (fun (mz, _) => let m := f32val mz; lo ≤ m && m ≤ hi)).foldl
     (fun acc (_, i) => if f32val i > acc then f32val i else acc) 0)
 
-/-- `tmt.tsv`: one row per input MS2 spectrum, one value per channel in plex order, each the most
-    intense raw peak within 20 ppm of the channel (MS2-level quantification exempts the reporter
-    region from deisotoping, so raw and processed agree there) -/
+/-- the spectra `tmt.tsv` has a row for, as (file, id shown in `scannr`, ion injection time bits, peaks to read the
+    reporters from, noise divisor): at MS2 level every MS2 spectrum of every file under its own id; at MS3 level every
+    MS3 scan of the mzML files under the id of the MS2 spectrum it references. With `sn` the intensities of a scan
+    of the quantified level that carries a noise array are divided by it (the harness writes a constant power of two,
+    so the quotient is exact). MGF spectra have no injection time (0). -/
+def tmtSources (run : Run) : List (Nat × List UInt8 × Nat × List (Nat × Nat) × Rat) :=
+  run.files.zipIdx.flatMap fun fi =>
+    let fmt := run.fmt fi.2
+    if run.cfg.tmtLevel == 2 then
+      fi.1.zipIdx.map fun sk => (fi.2, sk.1.title, (if fmt.format == 0 then 0 else fmt.inj.getD sk.2 0), sk.1.peaks, (1 : Rat))
+    else if fmt.format == 0 then [] else
+      (fmt.extras.filter fun e => e.level == run.cfg.tmtLevel).map fun e =>
+        (fi.2, (e.ref.map (·.1)).getD [], e.inj, e.peaks,
+         match run.cfg.tmtSn, e.noise with | true, some nz => f32val nz | _, _ => (1 : Rat))
+
+/-- `tmt.tsv`: one row per spectrum of the quantified level (`tmtSources`), identified by (filename, scannr) — so
+    every row joins the results table on the same two columns, and no two rows share them —; `ion_injection_time`
+    is the spectrum's; one value per channel in plex order, each the most intense peak within 20 ppm of the channel
+    (MS2-level quantification exempts the reporter region from deisotoping, so raw and processed agree there;
+    MS3 scans are not deisotoped at all). -/
 def tmtViolation (run : Run) (rows : List TmtRow) : Option String :=
   let masses := plexMasses run.cfg.tmt
-  let nspec := (run.files.map (·.length)).sum
-  if rows.length != nspec then some "tmt_row_count" else
-  match rows.find? (fun r =>
-    match (fileIndex r.filename).bind (fun fi => run.files[fi]?) with
-    | none => true
-    | some f =>
-      match f.find? (fun s => s.title == r.scannr) with
-      | none => true
-      | some sp =>
-        r.values.length != masses.length ||
-        (List.range masses.length).any (fun k =>
+  let srcs := tmtSources run
+  if rows.length != srcs.length then some "tmt_row_count" else
+  if rows.any (fun r => (rows.filter fun q => q.filename == r.filename && q.scannr == r.scannr).length != 1) then
+    some "tmt_duplicate_file_scannr" else
+  match rows.findSome? (fun r =>
+    match (fileOf run r.filename).bind (fun fi => srcs.find? fun s => s.1 == fi && s.2.1 == r.scannr) with
+    | none => some "tmt_row_of_unknown_spectrum"
+    | some (_, _, inj, peaks, nz) =>
+      if !(f32finite r.inj && f32val r.inj == f32val inj) then some "tmt_ion_injection_time" else
+      if r.values.length != masses.length then some "tmt_channel_count" else
+      let sp : Spectrum := { title := [], pepmz := 0, charge := none, rt := 0, peaks := peaks }
+      if (List.range masses.length).any (fun k =>
           match reporterValue sp (masses.getD k 0), r.values[k]? with
-          | some want, some got => !(f32finite got && f32val got == want)
+          | some want, some got => !(f32finite got && f32val got * nz == want)
           | none, _ => false
-          | _, none => true)) with
-  | some _ => some "tmt_value_ne_most_intense_peak_in_window"
+          | _, none => true) then some "tmt_value_ne_most_intense_peak_in_window" else none) with
+  | some c => some c
   | none => none
+
+/-- every PSM row of a quantified spectrum finds its reporter row: at MS2 level every result row, at MS3 level every
+    result row whose MS2 spectrum has an MS3 scan -/
+def tmtJoinViolation (run : Run) (rows : List Row) (tmts : List TmtRow) : Option String :=
+  let srcs := tmtSources run
+  if rows.any (fun r =>
+      match fileOf run r.filename with
+      | none => true
+      | some fi =>
+        (srcs.any fun s => s.1 == fi && s.2.1 == r.scannr) &&
+        !(tmts.any fun t => t.filename == r.filename && t.scannr == r.scannr)) then some "tmt_no_row_for_result_row" else none
+
+/-! ## `lfq.tsv` -/
+
+structure LfqRow where
+  peptide : List UInt8
+  charge : Int
+  proteins : List UInt8
+  q : Nat                -- f32 bits
+  score : Nat            -- f64 bits
+  angle : Nat            -- f64 bits
+  values : List Nat      -- f64 bits, one per file column
+
+structure LfqTable where
+  fileCols : List (List UInt8)     -- the header cells after the six fixed columns
+  rows : List LfqRow
+
+/-- `0.01f32`, the threshold of `build_feature_map` (`feat.peptide_q <= 0.01`) -/
+def onePercentF32 : Rat := f32val 1008981770
+
+/-- does input file `i` contain any MS1 spectrum? (MGF files never do) -/
+def hasMs1 (run : Run) (i : Nat) : Bool :=
+  let fmt := run.fmt i
+  fmt.format != 0 && fmt.extras.any (fun e => e.level == 1)
+
+/-- `lfq.tsv` against the configuration, the input files and `results.sage.tsv`:
+    * the file exists iff LFQ was requested; after the six fixed columns (pinned by `lfq_columns_ok`) there is one
+      intensity column per input file, named and ordered like the input files;
+    * every row is a (peptide, charge) precursor — charge `-1` iff charge states are combined, otherwise a searched
+      precursor charge — of a peptide that `results.sage.tsv` reports as a TARGET (label 1) with `peptide_q ≤ 0.01`:
+      no decoy peptide, no peptide that is not in the results, no peptide outside 1% peptide-level FDR;
+    * its `proteins` cell is the `proteins` cell of that peptide's result rows;
+    * `q_value ∈ (0, 1]`, `score ∈ (0, 1]`, `spectral_angle` finite, `≤ 1` and not below the configured threshold
+      (a peak is only integrated where the intensity-weighted normalised spectral angle reaches it);
+    * one finite intensity `≥ 0` per file, not all of them zero, and exactly `0` for a file without MS1 spectra;
+    * no two rows with the same (peptide, charge);
+    * a planted peptide with a clean MS1 isotope envelope in a file (generator's claim), whose result row is a target
+      at 1% peptide-level FDR, has a row with a positive intensity in that file's column. (When the claim says the
+      envelope is EXACTLY the theoretical distribution the clause has its own name: the cosine of identical vectors
+      can round above 1, `acos` is then NaN and the peak is rejected — see findings/C01-lfq-exact-envelope.req.) -/
+def lfqViolation (run : Run) (rows : List Row) (t : Option LfqTable) : Option String :=
+  match run.cfg.lfq, t with
+  | false, none => none
+  | false, some _ => some "lfq_file_without_lfq_requested"
+  | true, none => some "lfq_file_missing"
+  | true, some t =>
+    let nfiles := run.files.length
+    if t.fileCols != (List.range nfiles).map (fileNameOf run) then some "lfq_file_columns_ne_input_files" else
+    let passing (r : Row) : Bool := r.label == 1 && f32finite r.peptideQ && f32val r.peptideQ ≤ onePercentF32
+    let eps : Rat := 1 / 1000000000
+    match t.rows.findSome? (fun l =>
+      let tagc (c : String) : Option String := some (c ++ "@" ++ strOfBytes l.peptide ++ "/" ++ toString l.charge)
+      match parsePeptide l.peptide with
+      | none => tagc "lfq_peptide_unparsable"
+      | some _ =>
+        let same := rows.filter (fun r => r.peptide == l.peptide)
+        if same.isEmpty then tagc "lfq_peptide_not_in_results" else
+        if same.any (fun r => r.label != 1) then tagc "lfq_decoy_peptide" else
+        if !(same.any passing) then tagc "lfq_peptide_not_at_1pct_peptide_fdr" else
+        if same.any (fun r => r.proteins != l.proteins) then tagc "lfq_proteins_ne_results" else
+        if run.cfg.lfqCombine && l.charge != -1 then tagc "lfq_charge_not_combined" else
+        if !run.cfg.lfqCombine && !(decide ((run.cfg.zLo : Int) ≤ l.charge) && decide (l.charge ≤ (run.cfg.zHi : Int))) then
+          tagc "lfq_charge_not_searched" else
+        (match ratOfF32Bits l.q with
+         | none => tagc "lfq_q_value_range"
+         | some q => if 0 < q && q ≤ 1 then none else tagc "lfq_q_value_range").orElse fun _ =>
+        (match ratOfF64Bits l.score with
+         | none => tagc "lfq_score_range"
+         | some x => if 0 < x && x ≤ 1 + eps then none else tagc "lfq_score_range").orElse fun _ =>
+        (match ratOfF64Bits l.angle with
+         | none => tagc "lfq_spectral_angle_range"
+         | some a =>
+           if a > 1 + eps then tagc "lfq_spectral_angle_range" else
+           if a < run.cfg.lfqSpectralAngle - eps then tagc "lfq_spectral_angle_below_threshold" else none).orElse fun _ =>
+        if l.values.length != nfiles then tagc "lfq_intensity_columns" else
+        if l.values.any (fun v => match ratOfF64Bits v with | some x => x < 0 | none => true) then
+          tagc "lfq_intensity_negative_or_not_finite" else
+        if l.values.all (fun v => f64val v == 0) then tagc "lfq_row_without_intensity" else
+        if l.values.zipIdx.any (fun vi => !hasMs1 run vi.2 && f64val vi.1 != 0) then
+          tagc "lfq_intensity_in_file_without_ms1" else
+        none) with
+    | some c => some c
+    | none =>
+      if t.rows.any (fun l => (t.rows.filter fun m => m.peptide == l.peptide && m.charge == l.charge).length != 1) then
+        some "lfq_duplicate_peptide_charge" else
+      run.lfqPlanted.findSome? fun fp =>
+        if !(rows.any fun r => r.peptide == fp.2.1 && passing r && r.filename == fileNameOf run fp.1) then none else
+        if t.rows.any (fun l => l.peptide == fp.2.1 &&
+            (match l.values[fp.1]? with | some v => f64finite v && f64val v > 0 | none => false)) then none
+        else if fp.2.2 then some "lfq_exact_isotope_envelope_not_quantified"
+        else some ("lfq_planted_peptide_not_quantified@" ++ strOfBytes fp.2.1)
+
+/-- how many of the generator's LFQ claims were live (their PSM is a target at 1% peptide-level FDR) -/
+def lfqClaimsLive (run : Run) (rows : List Row) : Nat :=
+  (run.lfqPlanted.filter fun fp => rows.any fun r =>
+    r.peptide == fp.2.1 && r.label == 1 && f32finite r.peptideQ && f32val r.peptideQ ≤ onePercentF32 &&
+    r.filename == fileNameOf run fp.1).length
 
 /-- residue multiset with I and L identified (isobaric): sorted list of codes -/
 def ilComposition (seq : List UInt8) : List UInt8 :=
   let norm := seq.map (fun c => if c == 73 then (76 : UInt8) else c)
   norm.foldl (fun acc c => (acc.filter (· < c)) ++ [c] ++ (acc.filter (fun x => !(x < c)))) []
 
-def sameSpectrumAs (file : Nat) (title : List UInt8) (r : Row) : Bool :=
-  r.filename == bytesOfStr "file" ++ natToBytes file ++ bytesOfStr ".mgf" && r.scannr == title
+def sameSpectrumAs (run : Run) (file : Nat) (title : List UInt8) (r : Row) : Bool :=
+  r.filename == fileNameOf run file && r.scannr == title
 
 /-- planted peptides: reported at rank 1 for their spectrum. When the planted target is displaced by
     a DECOY made of the same residues up to I/L (hence with an identical b/y mass ladder only if the
@@ -658,8 +829,8 @@ def sameSpectrumAs (file : Nat) (title : List UInt8) (r : Row) : Bool :=
     lower peptide index), the clause has its own, narrow name: that behaviour is a known finding. -/
 def plantedViolation (run : Run) (rows : List Row) : Option String :=
   run.planted.findSome? (fun pl =>
-    if rows.any (fun r => sameSpectrumAs pl.file pl.title r && r.rank == 1 && r.peptide == pl.peptide) then none else
-    match rows.find? (fun r => sameSpectrumAs pl.file pl.title r && r.rank == 1), parsePeptide pl.peptide with
+    if rows.any (fun r => sameSpectrumAs run pl.file pl.title r && r.rank == 1 && r.peptide == pl.peptide) then none else
+    match rows.find? (fun r => sameSpectrumAs run pl.file pl.title r && r.rank == 1), parsePeptide pl.peptide with
     | some top, some want =>
       match parsePeptide top.peptide with
       | some got =>
